@@ -59,6 +59,7 @@ public:
         bool writable = true, isOwner = false, trans = false;
         int depth = 0;
         int fixR = -1, fixC = -1;    // handle commitment (-1 free)
+        bool canClear = true;        // false: real handle commitment not modelled (results of expressions)
     };
 
     vh::Ctx& c;
@@ -295,6 +296,19 @@ public:
                ((o.t ^ o.own->ownerT) & 1 ? "|neg" : "|pos") + (o.trans ? "|T" : "|N") + "|" + typeName(o.t);
     }
     void cover(const std::string& op, Obj& o) { c.cover(covKey(op, o)); }
+    bool libColumnOrder(Obj& o) {
+        bool v = false;
+        withT(o.t, [&](auto tt) { constexpr int T = decltype(tt)::value;
+            v = asBase<T>(o).getMatrixCharacter().getStorage().getOrder() == MatrixStorage::ColumnOrder; });
+        return v;
+    }
+    // does the library store this object as a 1-d (vector) structure?
+    bool lib1d(Obj& o) {
+        bool v = false;
+        withT(o.t, [&](auto tt) { constexpr int T = decltype(tt)::value;
+            v = asBase<T>(o).getMatrixCharacter().getStructure().getStructure() == MatrixStructure::Matrix1d; });
+        return v;
+    }
 
 #include "matrix_big_ops.h"
 };
